@@ -5,7 +5,7 @@ SD.b  for every creator that assigns X->deep = E: every function installed into 
       the creator's public _deep is at least E;
 SD.5  no allocator call / VLA outside mem.c and blob.c (shared with C15 R15.1).
 Absence of every out-of-bounds access for all inputs is a value statement and is declined."""
-import itertools, re
+import itertools, re, re
 from . import ir, sd
 from .ir import AnalysisBroken, strip, walk, show, access_path
 from .sd import Undecided
@@ -246,6 +246,77 @@ def check_creators(prog, res, tier, ne, sizes):
     res.floor("creators assigning ->deep", ncre, 8)
 
 
+# dimension grids of the high-level functions that allocate their own block (SD.d): scalar parameters by name,
+# fields of parameter-set structures by access path
+HL_SCALARS = {"len": [16, 24, 32], "count": [2, 5, 16], "threshold": [2, 3, 5], "l": [128, 192, 256], "key_len": [16, 32],
+              "mod": [10, 256, 65536], "iter": [1, 10000], "digit": [6, 8], "id_len": [0, 8, 40], "pwd_len": [0, 8],
+              "salt_len": [0, 8], "hash_len": [32, 48, 64], "ann_len": [0, 4, 60], "iv_len": [0, 16]}
+HL_ATOMS = {"l": [128, 192, 256]}
+
+
+def hl_grid(f, names_needed):
+    """cartesian grid over the scalar parameters of f we have values for, and over `<ptr>->l` of its parameter sets"""
+    axes = []
+    for p in f.params:
+        if not p.get("p") and p["n"] in HL_SCALARS:
+            axes.append([("s", p["n"], v) for v in HL_SCALARS[p["n"]]])
+        elif p.get("p") and re.search(r"_params\b", p.get("t") or ""):
+            axes.append([("a", p["n"] + "->l", v) for v in HL_ATOMS["l"]])
+    for combo in itertools.product(*axes) if axes else [()]:
+        scal = {n: v for k, n, v in combo if k == "s"}
+        atoms = {n: v for k, n, v in combo if k == "a"}
+        # threshold <= count
+        if "threshold" in scal and "count" in scal and scal["threshold"] > scal["count"]:
+            continue
+        yield scal, atoms
+
+
+def check_high_level_blobs(prog, res, ne):
+    """SD.d: a function that obtains its working memory from blobCreate(E) uses no more than E octets of it: carves by
+    pointer arithmetic, structures laid over it, states handed to Start/Step functions (their use of the state, see
+    SD.e) and scratch stacks handed to callees (their demand) are added up from the block's base exactly as for a
+    `stack` parameter and compared with the requested size on a grid of the function's dimensions."""
+    nd, und = 0, {}
+    for f in prog.all_funcs():
+        if f.body is None or any(p["n"] == "stack" and p.get("p") for p in f.params):
+            continue
+        if not any(c.get("callee") == "blobCreate" for c in ir.calls(f.body)):
+            continue
+        worst, npts, why = None, 0, None
+        for scal, atoms in hl_grid(f, None):
+            try:
+                need = ne.need(f, scal, atoms, "blob")
+            except Undecided as u:
+                why = str(u)
+                break
+            key = (f.name, f.unit if f.static else None, tuple(sorted(scal.items())), tuple(sorted(atoms.items())), "blob")
+            bs = ne.blob_sizes.get(key)
+            if bs is None:
+                why = "no blobCreate on the walked path"
+                break
+            if bs[0] is None:
+                why = "requested size not evaluable: %s" % bs[1]
+                break
+            npts += 1
+            if need > bs[0] and (worst is None or need - bs[0] > worst[0]):
+                worst = (need - bs[0], dict(scal, **atoms), need, bs[0])
+        if why:
+            und[f.name] = why
+            continue
+        nd += 1
+        if worst:
+            res.violation("SD.d-allocation-covers-use", function=f.name, file=f.relfile, line=f.line,
+                          construct="blobCreate requests less than %s uses" % f.name,
+                          detail="for %s the function lays out / passes down %d octets from the base of its block but asks "
+                                 "blobCreate for %d (short by %d): only the page rounding of blob.c hides the overrun" %
+                                 (", ".join("%s=%d" % kv for kv in sorted(worst[1].items())) or "every input", worst[2], worst[3], worst[0]))
+        else:
+            res.proved("SD.d-allocation-covers-use", function=f.name, file=f.relfile, line=f.line,
+                       construct="use of the block <= blobCreate argument", detail="holds on %d dimension tuple(s)" % npts)
+    res.floor("high-level functions with their own block (decided)", nd, 30)
+    res.coverage["blob_functions_not_decided"] = und
+
+
 def check_blob_sizes(prog, res, ne):
     """SD.c: the block blob.c obtains from the allocator covers the size header plus the requested payload"""
     for fname, alloc, size_idx in (("blobCreate", "memAlloc", 0), ("blobResize", "memRealloc", 1)):
@@ -321,6 +392,7 @@ def run(tier, seed=0):
     ne, sizes = check_deep(prog, res, tier)
     check_creators(prog, res, tier, ne, sizes)
     check_blob_sizes(prog, res, ne)
+    check_high_level_blobs(prog, res, ne)
     from . import c15
     c15.check_who_may_free(prog, res)
     for i in res.instances:
